@@ -536,7 +536,8 @@ class Interp:
                 hi = ln
                 break
         if lo is None or hi is None:
-            raise EngineFault(f"region markers not found in {_qn(fn)}")
+            # the region can no longer be located: undecided, not a fault
+            raise OutsideSubset(f"region markers not found in {_qn(fn)}")
         stmts = [st for st in node.body if lo < st.lineno and
                  st.end_lineno < hi]
         if not stmts:
